@@ -102,6 +102,43 @@ example : annVisit pinnedSup (.call (.name (some .typeVar)) [.const, .other "Lam
 example : D12_unsupportedAnnotNode pinnedSup
     (.binop true (.sub (.name none) (.attr (.name none) none)) (.call (.name (some .newType)) [.const, .name none] [])) = false := by decide
 
+/-! ## 1b. runtime annotations: the recursion guard of `_type_from_runtime` (Core/Tfr.lean) -/
+
+/-- **Evaluation of a runtime annotation terminates, cycles included**: if every route of the ForwardRef
+branch that re-enters the evaluator does so inside `ctx.add_evaluation(val)` (`unguarded = false`), then
+for every graph of typing objects — any number of ForwardRefs, evaluated or not, pointing anywhere,
+recursive and mutually recursive aliases included — and every start node and guard set,
+`tfrBound g gs n = (#ForwardRefs not yet being evaluated) · (|g| + 1) + n + 1` frames suffice: the
+result contains no `exhausted` (no `RecursionError`). In particular at most `|g|` ForwardRef
+unfoldings are ever nested. Full strength. -/
+theorem tfr_terminates (g : RGraph) (fuel : Nat) (gs : List Nat) (n : Nat) (h : tfrBound g gs n ≤ fuel) :
+    (tfr false g fuel gs n).hasExh = false :=
+  tfr_no_exh g fuel gs n h
+
+/-- **Regenerated obligation**: in the live source every `return` of the ForwardRef branch that
+re-enters the evaluator sits inside `with ctx.add_evaluation(val)` — so the live tree is the
+`unguarded = false` instance `tfr_terminates` speaks about. A new route around the guard breaks this. -/
+theorem forwardref_routes_guarded : liveUnguarded = false := by decide
+
+/-- **Why the guard must be on every route**: with a route that skips it for references typing has
+already resolved, the two-node graph `Json = List["Json"]` (reference evaluated) exhausts every
+budget, from either node. -/
+theorem tfr_unguarded_diverges (fuel : Nat) :
+    (tfr true cyclicEvaluated fuel [] 1).hasExh = true ∧ (tfr true cyclicEvaluated fuel [] 0).hasExh = true :=
+  unguarded_diverges fuel
+
+/-- The driver decides "does the evaluation exhaust the budget" with the short-circuiting `tfrDiverges`
+instead of building the (possibly exponentially large) result: the two agree for every graph, budget,
+guard set and node, guarded or not. -/
+theorem tfrDiverges_spec (ug : Bool) (g : RGraph) (fuel : Nat) (gs : List Nat) (n : Nat) :
+    tfrDiverges ug g fuel gs n = (tfr ug g fuel gs n).hasExh :=
+  tfrDiverges_eq ug g fuel gs n
+
+/-! Non-vacuity: the same graph under the guard gives `list[list[Any]]` within the bound (5 frames). -/
+example : tfrBound cyclicEvaluated [] 1 = 5 := by decide
+example : (tfr false cyclicEvaluated 5 [] 1).show = "(A (A any))" := by decide
+example : (tfr false [.leaf 0, .fref 3 false, .app [0, 1], .app [2, 1]] 9 [] 3).show = "(A (A L0 (A (A L0 any) any)) (A (A L0 any) any))" := by decide
+
 /-! ## 2. diagnostics are well-formed (`BaseNodeVisitor.show_error`) -/
 
 /-- The live registry has a non-empty description for every code and contains the two codes the
